@@ -131,6 +131,21 @@ def bookkeeping_fns(f):
     return _get(f, "bookkeeping_fns", go)
 
 
+def guard_drop_def(f):
+    """Def path of the Drop::drop implementation of the wait-for guard (wherever the guard type lives)."""
+    def go():
+        g = names(f).guard
+        for im in f.impls:
+            if im.get("trait") == "std::ops::Drop" and g is not None:
+                st = f.ty(im["self_ty"])
+                if st.k == "adt" and st.defn == g:
+                    for it in im["items"]:
+                        if f.body(it["def"]) is not None:
+                            return it["def"]
+        return None
+    return _get(f, "guard_drop", go)
+
+
 def metrics_accessors(f):
     """Crate-private functions returning (a reference to / an Arc of) the metrics collector."""
     def go():
